@@ -38,7 +38,7 @@ var (
 )
 
 // policy orders; the quick tier takes a window of it that moves with the seed
-var signPolicies = []string{"th2of3", "cnf4", "gate3", "th2of3sparse", "hier4", "th2of2", "unan3", "th3of5"}
+var signPolicies = []string{"th2of3", "cnf3", "th2of3sparse", "cnf4", "hier4", "gate3", "th2of2", "unan3", "th3of5"}
 
 func policyWindow(n, shift int) []namedPolicy {
 	if thor || n > len(signPolicies) {
@@ -203,22 +203,16 @@ func signDKLsOn[P curves.Point[P, B, S], B algebra.PrimeFieldElement[B], S algeb
 	for mi, mult := range []string{"bbot", "softspoken"} {
 		shift := 2*mi + r
 		if d.std != nil {
-			shift += 4
+			shift += 5
 		}
-		for pi, np := range policyWindow(2, shift) {
-			for qi, q := range quorumCases(np, lim(1, 4), lim(1-(pi%2), 1), lim(2, 99), pi+r+int(seed)) {
-				api := []string{"rounds", "runner"}[(pi+qi+mi+r)%2]
-				msgClass := msgClasses[(pi+qi+r)%len(msgClasses)]
-				srcIdx := pi + int(seed) + r + mi
-				if thor {
-					srcIdx += qi % 2
-				}
-				name := fmt.Sprintf("sign:dkls23-%s:%s:%s:%s", mult, d.g.name, np.Name, q.kind)
-				if !takeCase(name) {
-					continue
-				}
-				dklsLine(d, mult, np, keyFor(d.g, np, srcIdx), q, api, msgClass)
+		for _, it := range planCostly(2, shift) {
+			api := []string{"rounds", "runner"}[(it.pi+it.qi+mi+r)%2]
+			msgClass := msgClasses[(it.pi+it.qi+r)%len(msgClasses)]
+			name := fmt.Sprintf("sign:dkls23-%s:%s:%s:%s", mult, d.g.name, it.np.Name, it.q.kind)
+			if !takeCase(name) {
+				continue
 			}
+			dklsLine(d, mult, it.np, keyFor(d.g, it.np, it.srcIdx), it.q, api, msgClass)
 		}
 	}
 }
@@ -498,25 +492,26 @@ func signLindell17(r int) {
 func signL17On[P curves.Point[P, B, S], B algebra.PrimeFieldElement[B], S algebra.PrimeFieldElement[S]](d *ecDesc[P, B, S], r int) {
 	shift := r
 	if d.std != nil {
-		shift += 3
+		shift += 4
 	}
-	for pi, np := range policyWindow(3, shift) {
-		viaDKG := pi == 0 && len(np.Pol.IDs) <= lim(3, 4) // the DKG costs tens of seconds: one policy per curve in the quick tier
+	for _, it := range planCostly(2, shift) {
+		pi, qi := it.pi, it.qi
+		// the Lindell17 DKG (Paillier keys, LP / LPDL proofs for every MSP row and peer) costs tens of seconds: one policy per curve in
+		// the quick tier, every second policy of at most four holders in the thorough tier; the other keys come from the
+		// Lindell17 trusted dealer
+		viaDKG := pi == 0 && len(it.np.Pol.IDs) <= 3
 		if thor {
-			viaDKG = pi%2 == 0 && len(np.Pol.IDs) <= 4
+			viaDKG = pi%2 == 0 && len(it.np.Pol.IDs) <= 4
 		}
-		qs := quorumCases(np, lim(2, 6), lim(1, 1), lim(2, 99), pi+r+int(seed))
-		for qi, q := range qs {
-			api := []string{"rounds", "runner"}[(pi+qi+r)%2]
-			msgClass := msgClasses[(pi+qi+r+1)%len(msgClasses)]
-			comp := []compiler.Name{fischlin.Name, randfischlin.Name}[(pi+qi)%2]
-			primaryFirst := (pi+qi+int(seed))%2 == 0
-			name := fmt.Sprintf("sign:lindell17:%s:%s:%s", d.g.name, np.Name, q.kind)
-			if !takeCase(name) {
-				continue
-			}
-			l17Line(d, np, l17KeyFor(d, np, pi+int(seed)+r, viaDKG), q, api, msgClass, comp, primaryFirst)
+		api := []string{"rounds", "runner"}[(pi+qi+r)%2]
+		msgClass := msgClasses[(pi+qi+r+1)%len(msgClasses)]
+		comp := []compiler.Name{fischlin.Name, randfischlin.Name}[(pi+qi)%2]
+		primaryFirst := (pi+qi+int(seed))%2 == 0
+		name := fmt.Sprintf("sign:lindell17:%s:%s:%s", d.g.name, it.np.Name, it.q.kind)
+		if !takeCase(name) {
+			continue
 		}
+		l17Line(d, it.np, l17KeyFor(d, it.np, it.srcIdx, viaDKG), it.q, api, msgClass, comp, primaryFirst)
 	}
 }
 
